@@ -256,6 +256,19 @@ class ClusterVertex(Vertex):
         return iter(self.members)
 
 
+class VCustomState(Vertex):
+    """Customises its own un-pickling the way the pickle documentation shows it (no super() call)."""
+
+    def __setstate__(self, state):
+        self.__dict__.update(state)
+
+
+class VCachingOn(Vertex):
+    """Switches the neighbor cache on for this class only (the library reads the switch through the instance)."""
+
+    NEIGHBOR_CACHING = True
+
+
 class VCallable(Vertex):
     """Instances are callable (a task / handler vertex)."""
 
@@ -265,7 +278,7 @@ class VCallable(Vertex):
 
 VERTEX_CLASSES = {
     c.__name__: c
-    for c in (Vertex, VSub, VSubSub, FalsyVertex, EmptyVertex, Universe, VPlain, VFancy, VBoth, EqVertex, StrVertex, VSlots, VCallable)
+    for c in (Vertex, VSub, VSubSub, FalsyVertex, EmptyVertex, Universe, VPlain, VFancy, VBoth, EqVertex, StrVertex, VSlots, VCallable, VCustomState, VCachingOn)
 }
 EDGE_CLASSES = {
     c.__name__: c
@@ -287,7 +300,8 @@ EDGE_CLASSES = {
 # classes for graph-spec based checks only (not part of the history driver's op language)
 SPEC_ONLY_EDGE_CLASSES = {"DuckLink": DuckLink, "OtherLink~": OtherLinkNamesake}
 SPEC_ONLY_VERTEX_CLASSES = {"Vertex~": VertexNamesake, "VSub~": VSubNamesake, "UnhashableVertex": UnhashableVertex,
-                            "RankedVertex": RankedVertex, "VDirLess": VDirLess, "VRecord": VRecord}
+                            "RankedVertex": RankedVertex, "VDirLess": VDirLess, "VRecord": VRecord,
+                            "ClusterVertex": ClusterVertex}
 LINK_CLASSES = dict(EDGE_CLASSES)
 LINK_CLASSES["MultiLink"] = MultiLink
 ALL_CLASSES = {}
